@@ -303,11 +303,7 @@ func vStrategy(strats []Strat, counts map[string]int, ps *paramSet, au *advAudit
 				if s.Hint != "subPaddingHint" || n <= 0 {
 					continue
 				}
-				seq := s.Seq
-				if seq < 0 {
-					seq = -seq
-				}
-				if seq%n != c.Seq {
+				if seqTarget(s.Seq, n) != c.Seq {
 					continue
 				}
 				if applySubPadding(c, s) {
@@ -583,8 +579,34 @@ func genVCase(mode string, natives []string) *rapid.Generator[VCase] {
 			c.Builder = rapid.SampledFrom([]string{"r1cs", "scs"}).Draw(t, "builder")
 			// make sure the padding hint is exercised
 			pool, failAt := vModel(&c)
+			offByOne := false
 			if failAt < 0 {
-				c.Ops = append(c.Ops, Op{Op: "ModAssertIsEqual", A: []int{len(pool) - 1, len(pool) - 1}})
+				if rapid.IntRange(0, 2).Draw(t, "off-by-one-tail") == 0 && bigOf(c.M).Cmp(big.NewInt(2)) > 0 {
+					// x against x+1: must stay unsatisfiable; a padding that is off by one would hide the difference
+					c.In = append(c.In[:len(c.In):len(c.In)], "1")
+					for i := range c.Ops {
+						for j := range c.Ops[i].A {
+							if c.Ops[i].A[j] >= len(c.In)-1 {
+								c.Ops[i].A[j]++
+							}
+						}
+					}
+					n := len(pool) + 1
+					x := n - 1
+					c.Ops = append(c.Ops, Op{Op: "ModAdd", A: []int{x, len(c.In) - 1}})
+					if rapid.Bool().Draw(t, "obo-order") {
+						c.Ops = append(c.Ops, Op{Op: "ModAssertIsEqual", A: []int{x, n}})
+					} else {
+						c.Ops = append(c.Ops, Op{Op: "ModAssertIsEqual", A: []int{n, x}})
+					}
+					offByOne = true
+				} else {
+					c.Ops = append(c.Ops, Op{Op: "ModAssertIsEqual", A: []int{len(pool) - 1, len(pool) - 1}})
+				}
+			}
+			if offByOne {
+				c.Adv = append(c.Adv, []Strat{{Hint: "subPaddingHint", Seq: -1, Kind: "pad+1", D: 1}},
+					[]Strat{{Hint: "subPaddingHint", Seq: -1, Kind: "pad+1", D: -1}})
 			}
 			nSolves := rapid.IntRange(3, 6).Draw(t, "nsolves")
 			for s := 0; s < nSolves; s++ {
